@@ -22,7 +22,7 @@ WORKERS = {'quick': 12, 'thorough': 14}
 BUDGET_S = {'quick': 90, 'thorough': 600}
 NUMBA_THREADS = 2
 REQUIRED_COUNTERS = ['attacks_with_convergence', 'columns_vs_prefix_attack', 'points_checked', 'last_column_vs_scores', 'final_vs_no_convergence', 'observations',
-                     'step_larger_than_set', 'step_smaller_than_batch', 'step_not_dividing', 'multi_run_sequences', 'remainder_points', 'alignment_corner_cases']
+                     'step_larger_than_set', 'step_smaller_than_batch', 'step_not_dividing', 'multi_run_sequences', 'remainder_points', 'alignment_corner_cases', 'refused_runs_between']
 CLASSES = ['CPAAttack', 'DPAAttack', 'ANOVAAttack', 'NICVAttack', 'SNRAttack', 'MIAAttack', 'TemplateAttack', 'TemplateDPAAttack']
 CHEAP = ['CPAAttack', 'DPAAttack']
 RULE = ('a case = (attack class in 8, N in 1..120, convergence_step in 1..150 (smaller / equal / larger than the batch size and than N, dividing or not), '
@@ -50,12 +50,16 @@ def cases(tier, seed):
         for rel in ('aligned_total', 'run_ends_on_point', 'midstep_then_aligned'):
             for r in range(6 if klass == 'CPAAttack' else 2):
                 out.append(dict(gen='conv', klass=klass, rel=rel, sub=core.subseed('C08a', seed, klass, rel, r), must=True))
+    # a run that is refused (container with another trace length) between two accepted runs adds no column and changes none
+    for klass in ('CPAAttack', 'DPAAttack', 'SNRAttack', 'MIAAttack'):
+        for r in range(3):
+            out.append(dict(gen='conv', klass=klass, rel='refused_between', sub=core.subseed('C08rb', seed, klass, r), must=True))
     rs = np.random.default_rng(core.subseed('C08r', seed))
     n_rand = 500 if tier == 'quick' else 14000
     w = np.array([6 if c in CHEAP else (3 if c.startswith('Template') else 1) for c in CLASSES], dtype=float)
     w /= w.sum()
     for j in range(n_rand):
-        out.append(dict(gen='conv', klass=CLASSES[int(rs.choice(len(CLASSES), p=w))], rel=['step<batch', 'step=batch', 'step>batch', 'step>N', 'multi', 'any', 'any', 'aligned_total', 'run_ends_on_point', 'midstep_then_aligned'][int(rs.integers(10))],
+        out.append(dict(gen='conv', klass=CLASSES[int(rs.choice(len(CLASSES), p=w))], rel=['step<batch', 'step=batch', 'step>batch', 'step>N', 'multi', 'any', 'any', 'aligned_total', 'run_ends_on_point', 'midstep_then_aligned', 'refused_between'][int(rs.integers(11))],
                         sub=int(rs.integers(2 ** 62))))
     return out
 
@@ -86,6 +90,11 @@ def run_case(case):
     else:
         step = int(rng.integers(1, 151)) if rng.random() < 0.3 else int(rng.integers(1, N + 3))
     nruns = int(rng.choice([2, 3])) if rel == 'multi' else int(rng.choice([1, 1, 1, 2]))
+    refuse = rel == 'refused_between' and not klass.startswith('Template')
+    if refuse:
+        N = max(N, 5)
+        nruns = int(rng.choice([1, 2, 2, 3]))
+        step = int(rng.integers(1, N + 2))
     if nruns > N:
         nruns = 1
     cuts = None
@@ -205,6 +214,22 @@ def run_case(case):
             a.run(scared.Container(ths[cuts[r]:cuts[r + 1]]))
             obs.append((r, int(a.processed_traces), ncols(), 'after_run'))
             twin.run(scared.Container(ths[cuts[r]:cuts[r + 1]]))
+            if refuse and (r < nruns - 1 or rng.random() < 0.5):
+                before = None if a.convergence_traces is None else np.array(a.convergence_traces)
+                m = int(rng.integers(1, 2 * bs + 2))
+                bad = scared.traces.read_ths_from_ram(samples=rng.integers(0, 4, (m, T + 1)).astype(samples.dtype), v=rng.integers(0, 256, (m, W)).astype('uint8'))
+                try:
+                    a.run(scared.Container(bad))
+                    accepted = True
+                except Exception:
+                    accepted = False
+                if accepted:
+                    raise core.Inconclusive('a container with another trace length was accepted: the refused-run scenario does not apply')
+                t.count('refused_runs_between')
+                obs.append((r, int(a.processed_traces), ncols(), 'after_refused_run'))
+                after = None if a.convergence_traces is None else np.array(a.convergence_traces)
+                t.check((before is None and after is None) or (before is not None and after is not None and before.shape == after.shape and tol.same(before, after)),
+                        'refused_run_changed_convergence_traces', lambda: dict(info, run=r, columns_before=None if before is None else before.shape[-1], columns_after=None if after is None else after.shape[-1]))
     finally:
         scared.set_batch_size(None)
     t.count('attacks_with_convergence')
